@@ -201,6 +201,8 @@ type Engine struct {
 	strLitIDs map[string]uint64
 	unrolls map[string]*ssa.Function
 	topPkg string
+	strict bool
+	heapHavocs int
 	forceOrdinal int
 	oblNames map[string]bool
 	trueInv *ssa.Function
@@ -1079,6 +1081,9 @@ func (e *Engine) sliceOp(fr *Frame, st *State, in *ssa.Slice) Value {
 	// Go checks: 0 <= lo <= hi <= limit (cap for slices, len for strings/arrays)
 	if in.High != nil {
 		e.oblige(fr, st, "slice", in, And(BVSle(zero, hi), BVSle(hi, limit)), "slice high bound out of range")
+		if e.strict && !fr.spec && !isString {
+			e.oblige(fr, st, "strictlen", in, BVSle(hi, ln), "reslice beyond len: the result could depend on spare capacity")
+		}
 	}
 	e.oblige(fr, st, "slice", in, And(BVSle(zero, lo), BVSle(lo, hi)), "slice low bound out of range")
 	nl := BVSub(hi, lo)
